@@ -368,7 +368,9 @@ BeginPhase(int tid, int l, Mode m, bool conv, const char *how)
     if (p.lock != l || p.thread == tid) continue;
     if (p.active && Conflict(p.mode, m)) {
       const bool c10 = conv || p.conv;
-      std::string props = c10 ? "C01,C10" : "C01";
+      // two conflicting grants that overlap are not ordered by happens-before either (C08: one of the two critical
+      // sections has to be entirely before the other)
+      std::string props = c10 ? "C01,C10,C08" : "C01,C08";
       vs::Violate(props.c_str(), Fmt("CONFLICT:%s-vs-%s", kModeName[m], kModeName[p.mode]),
                   Fmt("T%d obtained %s on lock %d via %s while T%d holds %s", tid, kModeName[m], l, how,
                       p.thread, kModeName[p.mode]));
